@@ -40,7 +40,10 @@ CVec == <<3, -2>>
 \* which operators are defined for which (in shape, out shape)
 Applicable(op, ins, outs) ==
   CASE op \in {"grad_tuple", "grad_list", "value_and_grad_tuple", "make_vjp_tuple"} -> outs = <<>>
-    [] op \in {"grad", "hessian", "hessian_vector_product", "hessian_tensor_product", "value_and_grad", "grad_and_aux", "grad_named", "multigrad_dict",
+    \* grad-like operators accept any output of SIZE 1 (shape (), (1,), (1,1)): the gradient has the argument's shape, the value handed
+    \* back by value_and_grad keeps the output's own shape and type
+    [] op \in {"grad", "value_and_grad", "grad_and_aux"} -> Size(outs) = 1
+    [] op \in {"hessian", "hessian_vector_product", "hessian_tensor_product", "grad_named", "multigrad_dict",
                "make_hvp", "holomorphic_grad"} -> outs = <<>>
     [] op \in {"jac_thru_value", "grad_thru_aux_and_grad"} -> outs = <<>>
     [] op = "deriv" -> ins = <<>>
